@@ -100,7 +100,17 @@ func (f *frame) builtin(b *ssa.Builtin, argv []ssa.Value, args []*Val, res ssa.V
 			return nil, unsupported("len of non-term")
 		}
 		if _, isMap := argv[0].Type().Underlying().(*types.Map); isMap {
-			return nil, unsupported("len of map")
+			// the number of entries of a map is not modelled: an unspecified non-negative integer
+			if f.c == nil || f.pure {
+				return nil, unsupported("len of map")
+			}
+			n := f.e.fresh(f.prefix+"maplen", SInt)
+			f.assume(Ge(n, IntLit(0)))
+			if f.c.assumed == nil {
+				f.c.assumed = map[string]bool{}
+			}
+			f.c.assumed["len of a map is an unspecified non-negative integer"] = true
+			return &Val{T: n, Typ: types.Typ[types.Int]}, nil
 		}
 		if args[0].T.Sort.Kind != KSeq {
 			return nil, unsupported("len of %s", args[0].T.Sort)
@@ -1363,6 +1373,15 @@ func (f *frame) checkPost(rets []*Val, pos token.Pos) error {
 // checkFrame: every heap key changed since entry is changed only at locations the contract lists
 // (or at objects allocated during the call).
 func (f *frame) checkFrame(params []*Val, pos token.Pos) error {
+	if f.fc != nil && f.fc.NoFrame != "" {
+		if f.c != nil {
+			if f.c.assumed == nil {
+				f.c.assumed = map[string]bool{}
+			}
+			f.c.assumed[f.fnKeyOrName()+": frame conditions not checked (noframe: "+f.fc.NoFrame+")"] = true
+		}
+		return nil
+	}
 	mls, err := parseModifies(f.fc)
 	if err != nil {
 		return err
@@ -1790,4 +1809,14 @@ func (f *frame) topContract() *FuncContract {
 		return f.fc
 	}
 	return f.topFC
+}
+
+func (f *frame) fnKeyOrName() string {
+	if f.c != nil && f.c.fnKey != "" {
+		return f.c.fnKey
+	}
+	if f.fn != nil {
+		return f.fn.Name()
+	}
+	return "?"
 }
